@@ -27,12 +27,9 @@ variable {α : Type} [DecidableEq α] {ρ : Type}
 
 /-- The most specific applicable policy section, written as a first-match chain. -/
 def specSection (c : Ctx α ρ) : Option (Section α ρ) :=
-  let sec : α → Option (Section α ρ) := fun k =>
-    match c.secs.find? (fun p => p.1 = k) with
-    | some (_, some s) => some s
-    | _ => none
-  (sec c.sp).orElse fun _ => (c.ra.bind sec).orElse fun _ =>
-    ((sec c.dflt).filter (·.nonEmpty)).orElse fun _ => sec c.S.empty
+  (secOf c.secs c.sp).orElse fun _ =>
+    (c.ra.bind (secOf c.secs)).orElse fun _ =>
+      ((secOf c.secs c.dflt).filter (·.nonEmpty)).orElse fun _ => secOf c.secs c.S.empty
 
 /-- (held) -/
 def heldDominates (identity : Ava α) (p : α × Val α) : Bool :=
@@ -137,19 +134,5 @@ def specResponse (c : Ctx α ρ) (identity : Ava α) (required optional subj : L
   | .assertion ava => specRestrict c identity required optional subj (.ok ava)
   | .errorResponse => true
   | .raised _ => true
-
-/-! Side conditions that exclude the input classes of the recorded defects (decidable). -/
-
-/-- No RequestedAttribute that lists values designates a `str`-valued identity attribute
-    (excludes `C10/scalar-value-treated-as-sequence`). -/
-def scalarSafe (S : StrOps α) (acs : List (Conv α)) (identity : Ava α) (reqs : List (ReqAttr α)) : Bool :=
-  reqs.all (fun q => q.values.isEmpty ||
-    identity.all (fun p => match p.2 with
-      | .scalar _ => !reqMatches S acs q p.1
-      | .list _ => true))
-
-/-- No RequestedAttribute lists the same value twice (excludes `C10/duplicate-requested-value`). -/
-def distinctValues (reqs : List (ReqAttr α)) : Bool :=
-  reqs.all (fun q => q.values.all (fun v => decide (q.values.count v ≤ 1)))
 
 end Release
